@@ -45,7 +45,7 @@ func findSite(fn *ssa.Function, name string) *Site {
 		ss := sitesOf(f)
 		for i := range ss {
 			n := ss[i].CalleeName()
-			if n == name || strings.HasSuffix(n, "."+name) || strings.HasSuffix(n, ")."+name) {
+			if n == name || strings.HasSuffix(n, "."+name) || strings.HasSuffix(n, ")."+name) || strings.HasSuffix(n, "/"+name) {
 				return &ss[i]
 			}
 		}
@@ -57,7 +57,7 @@ func findSites(fn *ssa.Function, name string) []Site {
 	var out []Site
 	for _, s := range sitesOf(fn) {
 		n := s.CalleeName()
-		if n == name || strings.HasSuffix(n, "."+name) || strings.HasSuffix(n, ")."+name) {
+		if n == name || strings.HasSuffix(n, "."+name) || strings.HasSuffix(n, ")."+name) || strings.HasSuffix(n, "/"+name) {
 			out = append(out, s)
 		}
 	}
